@@ -15,6 +15,7 @@ package main
 // the next dump is taken).
 
 import (
+	"fmt"
 	"regexp"
 	"runtime"
 	"runtime/metrics"
@@ -45,6 +46,7 @@ type driver struct {
 	choicePoints int
 	dumps        int
 	parkSites    map[string]int
+	lastSettle   string // how the most recent settle concluded (diagnostics)
 }
 
 func newDriver(controlled, srcGate bool, choose func([]string) int) *driver {
@@ -108,12 +110,13 @@ func (d *driver) run() string {
 		if len(names) == 0 {
 			// Confirm with the framework's own classifier (README: hang =
 			// two dumps with every goroutine parked).
+			// (settle has just seen every goroutine parked twice under the
+			// stricter classification of parseDump.)
 			d1, b1 := run.AllBlocked()
 			_, b2 := run.AllBlocked()
-			if b1 && b2 && d.live.Load() > 0 && d.noneWaiting() {
+			if dump != "" && b1 && b2 && d.live.Load() > 0 && d.noneWaiting() {
 				return d1
 			}
-			_ = dump
 			continue
 		}
 		sort.Strings(names)
@@ -150,17 +153,21 @@ func (d *driver) settle() (dump string, finished bool) {
 	streak := 0
 	prevEv := int64(-1)
 	for spin := 0; ; spin++ {
+		// Every live goroutine registered at a gate: nothing can move. The
+		// number of waiting gates is read BEFORE the number of live
+		// goroutines: between the two reads gates are only added (the driver
+		// releases none), so waiting(t1) == live(t2) implies waiting(t2) ==
+		// live(t2). (A goroutine inside a synchronous task counts twice in
+		// live, which only makes this shortcut apply less often.)
+		d.mu.Lock()
+		nw := int64(len(d.waiting))
+		d.mu.Unlock()
 		live := d.live.Load()
 		if live == 0 {
 			return "", true
 		}
-		// Every live goroutine registered at a gate: nothing can move. (A
-		// goroutine inside a synchronous task counts twice in live, which only
-		// makes this shortcut apply less often.)
-		d.mu.Lock()
-		nw := int64(len(d.waiting))
-		d.mu.Unlock()
 		if nw == live {
+			d.lastSettle = "all live goroutines at gates"
 			return "", false
 		}
 		// Cheap pre-check before paying for a dump: the scheduler's own
@@ -191,6 +198,7 @@ func (d *driver) settle() (dump string, finished bool) {
 				sb.WriteString(g.block)
 				sb.WriteString("\n\n")
 			}
+			d.lastSettle = fmt.Sprintf("dumps (live=%d waiting=%d events=%d spin=%d):\n%s", live, nw, ev, spin, sb.String())
 			return sb.String(), false
 		}
 		if ok {
@@ -245,7 +253,8 @@ var (
 
 // Wait states in which a goroutine can only be woken by another goroutine of
 // the scenario. GC and scheduler-internal waits are deliberately absent: they
-// resolve on their own, so a goroutine in such a state counts as running.
+// resolve on their own, so a goroutine in such a state counts as running
+// ("semacquire" is refined in parseDump for the same reason).
 var parkedStates = map[string]bool{
 	"chan receive": true, "chan send": true, "select": true, "semacquire": true,
 	"sync.Mutex.Lock": true, "sync.RWMutex.RLock": true, "sync.RWMutex.Lock": true,
@@ -321,7 +330,17 @@ func parseDump(raw string) []gInfo {
 		if baseline[id] {
 			continue
 		}
-		out = append(out, gInfo{id: id, state: st, parked: parkedStates[st], block: blk})
+		parked := parkedStates[st]
+		if st == "semacquire" && !strings.Contains(blk, "\nsync.") {
+			// The runtime parks goroutines with this reason, too: a goroutine
+			// that is about to start a GC cycle (runtime.gcStart) waits for
+			// worldsema, which the dump itself holds while the world is
+			// stopped. It resumes on its own. (Observed: without this
+			// distinction about 1 in 3000 systematic enumerations saw a
+			// decision point with a gate missing.)
+			parked = false
+		}
+		out = append(out, gInfo{id: id, state: st, parked: parked, block: blk})
 	}
 	return out
 }
